@@ -11,6 +11,7 @@ import Emg3dVerif.Drv.C15
 import Emg3dVerif.Drv.C10
 import Emg3dVerif.Drv.C09
 import Emg3dVerif.Drv.C14
+import Emg3dVerif.Drv.C16
 open Emg
 
 def handle (ws : List String) : String :=
@@ -31,6 +32,7 @@ def handle (ws : List String) : String :=
       else if w == "pvec" || w == "recv" || w == "dvec" then Drv10.handle ws
       else if w == "ecf" then Drv09.handle ws
       else if w == "validate" || w == "map" then Drv14.handle ws
+      else if w == "stretch" || w == "goodmg" || w == "cutvec" || w == "compdom" || w == "oaw" then Drv16.handle ws
       else none
     r.getD "bad-op"
 
